@@ -369,6 +369,15 @@ Proof.
     + apply rev_cons_ne.
 Qed.
 
+(* a TABLE block's origin row is the index of its table-marker row *)
+Theorem table_origin_row rs i g :
+  In (BTable, i, g) (segment rs) ->
+  exists r0 g', nth_error rs i = Some r0 /\ kind_of r0 = KTable /\ g = r0 :: g'.
+Proof.
+  intro H. destruct (origin_row rs _ _ _ H) as [(r0 & Hn & Ht & Hg) _].
+  destruct Hg as [[g' ->]|[C _]]; [|discriminate]. exists r0, g'. auto.
+Qed.
+
 (* blocks come out in input order *)
 Lemma desc_split b l l1 x l2 : desc b l -> l = l1 ++ x :: l2 ->
   forall y, In y l2 -> snd (fst y) <= snd (fst x).
